@@ -282,6 +282,7 @@ def generate(repo):
             if isinstance(n, ast.Name) and n.id in consts and n.id.isupper():
                 used.add(n.id)
     used |= {"OFPP_MAX", "OFPP_NONE", "OFPP_ALL", "OFPP_CONTROLLER", "OFPP_TABLE", "OFPQ_ALL", "TABLE_ALL", "NO_BUFFER"} & set(consts)
+    used |= {k for k in consts if k.startswith(("OFPET_", "OFPBRC_", "OFPBAC_", "OFPFMFC_", "OFPPMFC_", "OFPQOFC_"))}     # every error type/code of the library
     neg = [k for k in used if consts[k] < 0]
     if neg: raise Untranslatable("negative constant %s" % neg)
 
